@@ -1,6 +1,9 @@
 package main
 
 import (
+	"fmt"
+	"os"
+	"go/token"
 	"go/types"
 	"go/ast"
 	"strings"
@@ -262,37 +265,70 @@ func ruleHeader(c *Ctx) {
 		c.Unresolved("Serializer.indexString", "function not found")
 		return
 	}
-	hasEq, hasBounds, sameBytes := false, false, 0
-	ast.Inspect(ix.Body, func(n ast.Node) bool {
-		switch x := n.(type) {
-		case *ast.IfStmt:
-			s := nospace(p.Str(x.Cond))
-			if s == "bytes.Equal(found,sb)" {
-				for _, b := range x.Body.List {
-					if rs, ok := b.(*ast.ReturnStmt); ok && nospace(p.Str(rs)) == "returnuint64(off)" {
-						hasEq = true
-					}
+	// path-wise: a remembered offset T-1 is returned only after T-1 >= 0, T-1+len(sb) <= len(stringBuf) and
+	// bytes.Equal(stringBuf[T-1 : T-1+len(sb)], sb); every other returning path appends sb to the table buffer,
+	// remembers old length + 1 in the slot of sb's hash, writes sb to the block writer and returns the old length
+	hasEq, hasBounds, sameBytes, nRet := false, false, 0, 0
+	{
+		sps, okp := p.SymPaths(ix, 1000, nil)
+		okAllPaths := okp && len(sps) > 0
+		nHit, nMiss := 0, 0
+		for _, sp := range sps {
+			if !sp.Feasible() || sp.RetNode == nil || len(sp.Ret) != 1 {
+				continue
+			}
+			ret := sp.Ret[0].String()
+			appended, remembered, written := false, false, false
+			for _, ef := range sp.Effects {
+				switch {
+				case ef.Kind == "store" && ef.Target == "R.stringBuf" && reCallNum.ReplaceAllString(ef.Val.String(), "") == "append(R.stringBuf,P:sb)":
+					appended = true
+				case ef.Kind == "store" && ef.Base == "R.stringsTable" && ef.Val.String() == "len(R.stringBuf)+1" && strings.Contains(ef.Target, "memHash(P:sb)"):
+					remembered = true
+				case ef.Kind == "call" && strings.HasSuffix(ef.Target, ").Write") && ef.Base == "R.stringWr" && len(ef.Args) == 1 && ef.Args[0].String() == "P:sb":
+					written = true
 				}
 			}
-			if s == "off>=0&&end<=len(s.stringBuf)" {
-				hasBounds = true
+			if appended || remembered || written {
+				nMiss++
+				if !(appended && remembered && written && ret == "len(R.stringBuf)") {
+					okAllPaths = false
+					if os.Getenv("SIMDVET_DEBUG") != "" {
+						fmt.Fprintln(os.Stderr, "miss path fails:", appended, remembered, written, ret)
+					}
+				}
+				continue
 			}
-		case *ast.CallExpr:
-			s := nospace(p.Str(x))
-			if s == "append(s.stringBuf,sb...)" || s == "s.stringWr.Write(sb)" {
-				sameBytes++
+			// a hit: returns T-1 where T is the table entry of sb's hash
+			nHit++
+			if !strings.HasPrefix(ret, "R.stringsTable[") || !strings.HasSuffix(ret, "]-1") || !strings.Contains(ret, "memHash(P:sb)") {
+				okAllPaths = false
+				continue
+			}
+			T := strings.TrimSuffix(ret, "-1")
+			ge0, inBuf, equal := false, false, false
+			for _, cd := range sp.Conds {
+				if cd.Other == "" && cd.L.String() == ret && cd.Op == token.GEQ && cd.R.IsConst() && cd.R.K == 0 {
+					ge0 = true
+				}
+				if cd.Other == "" && cd.L.String() == T+"+len(P:sb)-1" && cd.Op == token.LEQ && cd.R.String() == "len(R.stringBuf)" {
+					inBuf = true
+				}
+				if reCallNum.ReplaceAllString(cd.Other, "") == reCallNum.ReplaceAllString("bytes.Equal(R.stringBuf["+ret+":"+T+"+len(P:sb)-1],P:sb)", "") {
+					equal = true
+				}
+			}
+			if !(ge0 && inBuf && equal) {
+				okAllPaths = false
+				if os.Getenv("SIMDVET_DEBUG") != "" {
+					fmt.Fprintln(os.Stderr, "hit path fails:", ge0, inBuf, equal, ret)
+				}
 			}
 		}
-		return true
-	})
-	// an early hit return outside the Equal test would merge different strings
-	nRet := 0
-	ast.Inspect(ix.Body, func(n ast.Node) bool {
-		if _, ok := n.(*ast.ReturnStmt); ok {
-			nRet++
+		if okAllPaths && nHit >= 1 && nMiss >= 1 {
+			hasEq, hasBounds, sameBytes, nRet = true, true, 2, 2
 		}
-		return true
-	})
+	}
 	c.Check(hasEq && hasBounds && sameBytes == 2 && nRet == 2, "indexString:dedup", p.Pos(ix), "a table hit is used only inside the bounds check and after bytes.Equal; new strings go to both the table buffer and the block writer",
 		"the string table returns a remembered offset without comparing the bytes (or new strings are not written identically to table buffer and block): different strings are merged or offsets drift", "two different strings of equal length whose hashes collide in the 14-bit table")
 }
